@@ -315,8 +315,8 @@ func init() {
 					r.Sample(map[string]interface{}{"suite": "world", "op": op, "family": f.Name})
 				}
 				c11JudgeWorldDB(r, cs, db)
-				if k%2 == 0 || tier == "thorough" {
-					c11FaultPoints(r, rng, db, rec, cs, tier == "thorough")
+				if k%2 == 0 {
+					c11FaultPoints(r, rng, db, rec, cs, tier == "thorough" && k%4 == 0)
 				}
 			}
 			closeFn()
